@@ -3,6 +3,8 @@ import OnlVerif.Net.FifoReplay
 import OnlVerif.Net.GenSinkReplay
 import OnlVerif.Util.TimerReplay
 import OnlVerif.Net.StampReplay
+import OnlVerif.Net.RouteReplay
+import OnlVerif.Tcp.Replay
 import OnlVerif.Util.RtReplay
 /-! Line-protocol driver: `driver <mode>` reads cases on stdin and prints the model's observations. -/
 
@@ -14,5 +16,8 @@ def main (args : List String) : IO UInt32 := do
   | ["gensink"] => gensinkLoop stdin; return 0
   | ["timer"] => timerLoop stdin none; return 0
   | ["stamp"] => stampLoop stdin; return 0
+  | ["route"] => routeLoop stdin; return 0
+  | ["tcpsink"] => tcpLoop stdin "tcpsink"; return 0
+  | ["tcpsender"] => tcpLoop stdin "tcpsender"; return 0
   | ["rt"] => rtLoop stdin {}; return 0
   | _ => IO.eprintln "usage: driver <kernel|fifo|gensink|timer|rt|…>"; return 2
